@@ -8,7 +8,7 @@ from .. import oracles as O
 from .setops import premise_group, bits_for, fnr, built
 
 BOUNDS = {'quick': {'comparators folded in one alternative': '1..3 (any of them possibly dropped as garbage)', 'alternatives flattened': '1..2 of <= 2 intervals'},
-          'thorough': {'comparators folded in one alternative': '1..5', 'alternatives flattened': '1..4 of <= 2 intervals'}}
+          'thorough': {'comparators folded in one alternative': '1..6', 'alternatives flattened': '1..5 of <= 2 intervals'}}
 OUTSIDE = ['that the texts `a b` and `a || b` tokenise into these comparator lists (winnow `separated`, `space1`, `logical_or`: not encodable)',
            'hyphen ranges inside a space-joined list (excluded by the property)']
 ASSUMPTIONS = ['each comparator is an arbitrary interval accepted by BoundSet::new or None (dropped token)', 'rank / hybrid mode sound given C04',
@@ -16,14 +16,16 @@ ASSUMPTIONS = ['each comparator is an arbitrary interval accepted by BoundSet::n
 
 
 def groups(tier):
-    N = 3 if tier == 'quick' else 5
+    N = 3 if tier == 'quick' else 6
     gs = []
     for n in range(1, N + 1):
         gs.append({'name': 'fold-%d' % n, 'fn': fold_group, 'args': {'n': n, 'hybrid': False}})
         gs.append({'name': 'fold-sat-%d' % n, 'fn': fold_group, 'args': {'n': n, 'hybrid': True}})
-    for k in range(1, (2 if tier == 'quick' else 4) + 1):
+    for k in range(1, (2 if tier == 'quick' else 5) + 1):
         gs.append({'name': 'flatten-%d' % k, 'fn': flatten_group, 'args': {'k': k}})
     gs.append({'name': 'range_set', 'fn': range_set_group, 'args': {}})
+    from .c01 import corpus_group
+    gs.append({'name': 'native-corpus', 'fn': corpus_group, 'args': {'n': 400 if tier == 'quick' else 2500}})
     gs.append(premise_group(tier))
     return gs
 
